@@ -1,7 +1,11 @@
 //! C13 harness: --tiebreak strings x value tuples against the real parse_criteria /
 //! RankBuilder / [i32;4] ordering.  Writes Coq case files (model side evaluated by coqc) and
 //! evaluates the direct oracle (documented rule re-implemented here, independent of the model).
+use skim::prelude::{AndOrEngineFactory, ExactOrFuzzyEngineFactory, RegexEngineFactory};
 use skim::verif::{parse_criteria, RankBuilder, RankCriteria};
+use skim::{CaseMatching, FuzzyAlgorithm, MatchEngineFactory, MatchRange, SkimItem};
+use std::borrow::Cow;
+use std::sync::Arc;
 use skv::*;
 use std::cmp::Ordering;
 use std::collections::BTreeSet;
@@ -106,6 +110,98 @@ fn doc_criteria(opt: &Option<String>) -> Vec<String> {
     cs
 }
 
+struct NthItem {
+    text: String,
+    ranges: Option<Vec<(usize, usize)>>,
+}
+impl SkimItem for NthItem {
+    fn text(&self) -> Cow<str> {
+        Cow::Borrowed(&self.text)
+    }
+    fn get_matching_ranges(&self) -> Option<&[(usize, usize)]> {
+        self.ranges.as_deref()
+    }
+}
+
+const TCHARS: [char; 9] = ['a', 'b', 'c', 'A', ' ', '-', '中', 'é', 'x'];
+
+fn builder_for(opt: &Option<String>) -> Arc<RankBuilder> {
+    let crit: Vec<RankCriteria> = match opt {
+        Some(t) => t.split(',').filter_map(parse_criteria).collect(),
+        None => vec![RankCriteria::Score, RankCriteria::Begin, RankCriteria::End],
+    };
+    Arc::new(RankBuilder::new(crit))
+}
+
+/// one engine-level case: returns (coq term, input description, oracle failure)
+fn engine_case(r: &mut Rng, dist: &mut Hist) -> Option<(String, String, Option<String>)> {
+    let text: String = (0..(1 + r.below(14))).map(|_| *r.pick(&TCHARS)).collect();
+    // --nth style byte ranges on char boundaries
+    let bounds: Vec<usize> = text.char_indices().map(|(i, _)| i).chain(std::iter::once(text.len())).collect();
+    let ranges = if r.chance(1, 2) {
+        let k = 1 + r.below(3);
+        let mut v = Vec::new();
+        for _ in 0..k {
+            let a = *r.pick(&bounds);
+            let b = *r.pick(&bounds);
+            v.push((a.min(b), a.max(b)));
+        }
+        Some(v)
+    } else {
+        None
+    };
+    let body: String = (0..(1 + r.below(3))).map(|_| *r.pick(&['a', 'b', 'c', 'x', '中'])).collect();
+    let kind = r.below(6);
+    let term = match kind {
+        0 => body.clone(),
+        1 => format!("'{}", body),
+        2 => format!("^{}", body),
+        3 => format!("{}$", body),
+        4 => format!("!{}", body),
+        _ => body.clone(),
+    };
+    let algo = *r.pick(&[FuzzyAlgorithm::SkimV1, FuzzyAlgorithm::SkimV2, FuzzyAlgorithm::Clangd]);
+    let exact = r.chance(1, 4);
+    let regex = kind == 5 && r.chance(1, 2);
+    let andor = r.chance(1, 3);
+    let opt = if r.chance(1, 8) { None } else { gen_opt(r) };
+    // the same engine under the given criteria and under "-score,begin,end,length" (to read score/begin/end back)
+    let probe = Some("-score,begin,end,length".to_string());
+    let mk = |o: &Option<String>, andor: bool| -> Box<dyn skim::MatchEngine> {
+        let rb = builder_for(o);
+        if regex {
+            RegexEngineFactory::builder().rank_builder(rb).build().create_engine_with_case(&term, CaseMatching::Smart)
+        } else {
+            let f = ExactOrFuzzyEngineFactory::builder().exact_mode(exact).fuzzy_algorithm(algo).rank_builder(rb).build();
+            if andor { AndOrEngineFactory::new(f).create_engine_with_case(&term, CaseMatching::Smart) } else { f.create_engine_with_case(&term, CaseMatching::Smart) }
+        }
+    };
+    let item: Arc<dyn SkimItem> = Arc::new(NthItem { text: text.clone(), ranges: ranges.clone() });
+    let got = mk(&opt, andor).match_item(item.clone())?;
+    let pr = mk(&probe, andor).match_item(item.clone())?;
+    // where the match is: as reported by the term's own engine (the and/or combinator keeps the
+    // first term's rank but re-expresses the positions as character indices)
+    let plain = mk(&probe, false).match_item(item.clone())?;
+    let input = format!("engine term={:?} text={:?} nth_ranges={:?} exact={} regex={} andor={} algorithm={:?} tiebreak={:?}", term, text, ranges, exact, regex, andor, algo, opt);
+    let (mb, me) = match &plain.matched_range {
+        MatchRange::ByteRange(b, e) => (*b, *e),
+        MatchRange::Chars(v) => (*v.first().unwrap_or(&0), *v.last().unwrap_or(&0)),
+    };
+    dist.add(match &plain.matched_range { MatchRange::ByteRange(..) => "engine=span", MatchRange::Chars(_) => "engine=fuzzy" });
+    if ranges.is_some() { dist.add("engine:nth"); }
+    let score = pr.rank[0] as i64;
+    let mut bad = None;
+    // direct oracle: under "-score,begin,end,length" the key is (score, match start, match end, byte length)
+    if pr.rank[1] as usize != mb || pr.rank[2] as usize != me || pr.rank[3] as usize != text.len() {
+        bad = Some(format!("rank under -score,begin,end,length is {:?} but the reported match is {:?} in a text of {} bytes", pr.rank, plain.matched_range, text.len()));
+    }
+    let term_coq = format!(
+        "KEngine {{| e_opt := {}; e_score := {}; e_begin := {}; e_end := {}; e_len := {}; e_rank := {} |}}",
+        coq::opt(opt.as_ref().map(|s| coq::text(s))), coq::z(score), coq::n(mb as u64), coq::n(me as u64), coq::n(text.len() as u64),
+        coq::zs(got.rank.iter().map(|x| *x as i64)));
+    Some((term_coq, input, bad))
+}
+
 fn main() {
     let a = args();
     quiet_panics();
@@ -117,6 +213,22 @@ fn main() {
     let ids: Vec<u64> = match a.only { Some(i) => vec![i], None => (0..a.n).collect() };
     for id in ids {
         let mut r = Rng::for_case(a.seed, id);
+        if id % 4 == 3 {
+            // engine-level case (a quarter of the run); non-matching draws are skipped
+            let res = guarded(|| { let mut d = Hist::default(); let x = engine_case(&mut r.clone(), &mut d); (x, d) });
+            match res {
+                Err(e) => fails.push(OracleFailure { case: id, what: format!("panic in engine case: {}", e), known: None, input: format!("engine case seed={} id={}", a.seed, id) }),
+                Ok((None, _)) => dist.add("engine=no-match"),
+                Ok((Some((term, input, bad)), d)) => {
+                    for (k, v) in d.0 { *dist.0.entry(k).or_insert(0) += v; }
+                    if let Some(m) = bad { fails.push(OracleFailure { case: id, what: m, known: None, input: input.clone() }); }
+                    distinct.insert(input.clone());
+                    if samples.len() < 4 && samples.len() >= 2 { samples.push(J::s(&input)); }
+                    w.push(id, term);
+                }
+            }
+            continue;
+        }
         let opt = gen_opt(&mut r);
         let va = gen_val(&mut r);
         let mut vb = gen_val(&mut r);
@@ -182,13 +294,13 @@ fn main() {
             coq::zs(rbk.iter().map(|x| *x as i64)),
             coq::z(match ord { Ordering::Less => -1, Ordering::Equal => 0, Ordering::Greater => 1 })
         );
-        w.push(id, term);
+        w.push(id, format!("KRank {}", term));
     }
     let total = w.total;
     let shards = w.finish();
     write_meta(
         &a.out, total, distinct.len() as u64,
-        "random --tiebreak strings (8 names in random letter case, junk words, adjacent duplicates, absent option) x two (score,begin,end,length) tuples with forced ties; non-trivial = option given, >= 2 criteria after normalisation, a != b; distinct by (criteria, a, b)",
+        "random --tiebreak strings (8 names in random letter case, junk words, adjacent duplicates, absent option) x two (score,begin,end,length) tuples with forced ties; non-trivial = option given, >= 2 criteria after normalisation, a != b; distinct by (criteria, a, b); every fourth case instead runs a real engine (exact/fuzzy x3 algorithms/regex/and-or, with random --nth byte ranges) on a real item and compares its rank with build_rank of the match it reports",
         samples, dist.json(), &fails, shards,
     );
 }
